@@ -75,7 +75,9 @@ func main() {
 		t, err := parser.Parse(*flags.EvalFlag)
 
 		if err != nil {
+			// none of an input with a syntax error is evaluated
 			fmt.Println(err)
+			return
 		}
 
 		// every statement goes through the same steps as in the other modes
